@@ -17,6 +17,7 @@ import Driver.OpsPTN
 import Driver.OpsSolvers
 import Driver.OpsApi
 import Driver.OpsGlue
+import Driver.OpsServe
 namespace Driver
 
 def handlers : List Handler := [
@@ -49,6 +50,9 @@ def step (st : St) (line : String) : St × String :=
     -- (and the C06 cache of the last solved game graph, a pure function of its root position)
     ({ basis := st.basis, solvers := { graph := st.solvers.graph } }, "ok")
   | op :: args =>
+    -- the serve ops own the driver state (no other handler is tried first), so that the model's 3.2 M-entry
+    -- transposition tables are updated in place
+    if op.startsWith "sv." then (match handleServe st op args with | some r => r | none => (st, "bad-op")) else
     let rec go : List Handler → St × String
       | [] => (st, "bad-op")
       | h :: hs => match h st op args with
